@@ -3564,11 +3564,18 @@ class C14(Prop):
                     if x is not None:
                         outs.append(x)
             text += ''.join('.%s()' % nm for nm in ([agg] if agg else []) + names)
-            pad = None
-            if r.random() < 0.15:
+            pad, nodollar = None, False
+            k_ = r.random()
+            if k_ < 0.15:
                 # C18_outer_spaces_same_tree_with_functions: blanks before and after the whole path (Coq's fpadded_fun_path)
                 pad = (r.randint(0, 3), r.randint(0, 3))
                 text = ' ' * pad[0] + text + ' ' * pad[1]
+            elif k_ < 0.3 and spec[0][0] not in (4, 7, 8, 9, 10, 11, 12, 13, 14, 15):
+                # C18_dollar_optional_before_functions / _before_aggregates: the same path without its leading $ (Coq's fchain_fun_path0)
+                nodollar = True
+                text = text[1:]
+                if text.startswith('.'):
+                    text = text[1:]
             regs = sorted(set(names) | ({r.choice(gens.FILTER_FUNCS)} if r.random() < 0.3 else set()))
             aggs_ = sorted(({agg} if agg else set()) | ({r.choice(gens.AGG_FUNCS)} if r.random() < 0.2 else set()))
             c = Case('ft%d' % i, text.encode('utf-8'), [doc], regs, aggs_, r.random() < 0.15,
@@ -3576,6 +3583,7 @@ class C14(Prop):
             c.keyc = spec
             c.keyf = [[ord(ch) for ch in nm] for nm in ([agg] if agg else []) + names]
             c.pad = pad
+            c.nodollar = nodollar
             want[c.id] = (calls, outs, bool(cur))
             cases.append(c)
         go, mo = both_sides(cases)
